@@ -7,6 +7,7 @@ import (
 	"net"
 	"net/http"
 	"sync"
+	"sync/atomic"
 	"time"
 )
 
@@ -45,15 +46,18 @@ type Hit struct {
 
 // Origin is one loopback server.
 type Origin struct {
-	mu     sync.Mutex
-	paths  map[string]Behaviour
-	def    *Behaviour
-	hits   []Hit
-	start  time.Time
-	srv    *http.Server
-	ln     net.Listener
-	addr   string
-	closed bool
+	mu    sync.Mutex
+	paths map[string]Behaviour
+	def   *Behaviour
+	hits  []Hit
+	start time.Time
+	// Fragment: send every response body in two pieces with a flush and a pause in between
+	// (a client that reads the body with a single Read sees only the first piece)
+	Fragment atomic.Bool
+	srv      *http.Server
+	ln       net.Listener
+	addr     string
+	closed   bool
 }
 
 // New starts an origin on a free loopback port.
@@ -136,7 +140,16 @@ func (o *Origin) serve(w http.ResponseWriter, r *http.Request) {
 		code, body := b.Func(req)
 		w.Header().Set("Content-Type", "application/ocsp-response")
 		w.WriteHeader(code)
-		_, _ = w.Write(body)
+		if o.Fragment.Load() && len(body) > 8 {
+			_, _ = w.Write(body[:len(body)/2])
+			if f, ok := w.(http.Flusher); ok {
+				f.Flush()
+			}
+			time.Sleep(3 * time.Millisecond)
+			_, _ = w.Write(body[len(body)/2:])
+		} else {
+			_, _ = w.Write(body)
+		}
 	case "hang":
 		time.Sleep(b.Delay)
 	default:
